@@ -18,4 +18,6 @@ CONSTANTS
   Spellings = {"canon"}
   MaskDecoded = TRUE
   ReadFailIsError = TRUE
+  Shapes = {"plain"}
+  RejectQuotesValue = FALSE
   SaslUserIsSecret = TRUE
